@@ -424,11 +424,13 @@ def extra_carriers(ctx, rec):
                 variants.append({"xc": "series", "tc": "series_naive"})
                 variants.append({"xc": "series_idx", "tc": "series_utc"})
             variants.append({"spanc": "tuple"})
+            if fn == "press":
+                variants.append({"via": "gliders"})
             if fn == "clim":
                 variants += [{"tspanc": "iso"}, {"tspanc": "dt64"}, {"climc": "object"}]
             if ctx.quick:
                 ctx.rng.shuffle(variants)
-                variants = variants[:10]
+                variants = variants[:10] + [v for v in variants[10:] if "via" in v]
             for v in variants:
                 label = ",".join("%s=%s" % kv for kv in sorted(v.items()))
                 steps.append(({"kind": "recall", "i": 0, "k": 0}, json.loads(json.dumps(c)),
